@@ -196,6 +196,31 @@ def nonzero_by_facts(den, fs):
     return False
 
 
+def r_cplx_modulus(rep, f):
+    """every |re| + |im| magnitude in the complex factorisation / solve pairs the real and the imaginary matrix at one and
+    the same entry (a pivot magnitude built from the same part twice declares a purely imaginary pivot singular)"""
+    n = 0
+    for fn, b in [(fn0, b0) for fn0 in (LUC, SOLC) if fn0 in f.bodies for b0 in scope_bodies(f, fn0)]:
+        mats = [p_["id"] for p_ in b.get("params", []) if p_.get("k") == "PBind" and "Matrix" in (p_.get("ty") or "")]
+        for add in tast.find(b["body"], lambda z: z.get("k") == "Binary" and z["op"] == "Add"):
+            ops = []
+            for side in (add["l"], add["r"]):
+                if side.get("k") == "MethodCall" and side.get("name") == "abs" and side["recv"].get("k") == "Index" and side["recv"]["e"].get("k") == "Path" and side["recv"]["e"].get("id") in mats:
+                    ops.append(side["recv"])
+            if len(ops) != 2:
+                continue
+            n += 1
+            key = "R-CPLX-MODULUS:%s:%d" % (fn.split("::")[-1], n)
+            same_mat = ops[0]["e"]["id"] == ops[1]["e"]["id"]
+            same_idx = tast.render(ops[0]["i"]) == tast.render(ops[1]["i"])
+            if same_mat or not same_idx:
+                rep.violation("R-CPLX-MODULUS", key, "`%s` is not |re| + |im| of one entry (%s)" % (tast.render(add)[:90], "the same part is taken twice" if same_mat else "the two parts are taken at different entries"), add.get("sp"))
+            else:
+                rep.ok("R-CPLX-MODULUS", key, "|%s| + |%s| at %s" % (ops[0]["e"].get("name"), ops[1]["e"].get("name"), tast.render(ops[0]["i"])))
+    if n < 3:
+        rep.inconc("R-CPLX-MODULUS", "R-CPLX-MODULUS:floor", "only %d |re| + |im| magnitudes found in the complex factorisation (expected >= 3)" % n)
+
+
 def r_lu_siblings(rep, f):
     if LU not in f.bodies or LUC not in f.bodies:
         return
@@ -603,8 +628,29 @@ def r_bdf_matrix(rep, f):
         probs.append("the identity is not added on the diagonal")
     # c = h_signed / alpha[order]
     cl = tast.find(main, lambda z: z.get("k") == "Let" and z["pat"].get("name") == "c" and z.get("init") is not None and z["init"].get("k") == "Binary" and z["init"]["op"] == "Div")
-    if not cl or not (cl[0]["init"]["r"].get("k") == "Index" and tast.render(cl[0]["init"]["r"]).startswith("alpha[")):
-        probs.append("c is not h / alpha[order]")
+    # c = h / alpha[order]: identified by shape (a quotient whose divisor is an element of a coefficient array indexed by
+    # the order variable), not by its name
+    cl = tast.find(main, lambda z: z.get("k") == "Let" and z["pat"].get("k") == "PBind" and z.get("init") is not None and z["init"].get("k") == "Binary" and z["init"]["op"] == "Div"
+                   and z["init"]["r"].get("k") == "Index" and z["init"]["r"]["i"].get("k") == "Path" and "usize" in (z["init"]["r"]["i"].get("ty") or "")
+                   and "[f64;" in (z["init"]["r"]["e"].get("ty") or "").replace(" ", ""))
+    if len(cl) != 1:
+        probs.append("the step coefficient c = h / alpha[order] is not computed once per iteration (found %d candidates)" % len(cl))
+    elif len(a1) == 1:
+        cid = cl[0]["pat"]["id"]
+        alias = {cid}
+        grew = True
+        while grew:
+            grew = False
+            for l_ in tast.find(main, lambda z: z.get("k") == "Let" and z["pat"].get("k") == "PBind" and z.get("init") is not None and z["init"].get("k") == "Path" and z["init"].get("id") in alias):
+                if l_["pat"]["id"] not in alias:
+                    alias.add(l_["pat"]["id"])
+                    grew = True
+        facs = [q for q in tast.find(a1[0]["r"], lambda q: q.get("k") == "Path" and q.get("res") == "local" and (q.get("ty") or "") == "f64")]
+        if not facs or not all(q.get("id") in alias for q in facs):
+            probs.append("the iteration matrix is built with `%s`, not with this step's coefficient `%s = h/alpha[order]`: after a change of step size or order the Newton matrix belongs to the previous step"
+                         % ([q.get("name") for q in facs if q.get("id") not in alias][:1] or ["?"])[0] + "" if False else
+                         "the iteration matrix is built with `%s`, not with this step's coefficient `%s = %s`: after a change of step size or order the Newton matrix belongs to an earlier step"
+                         % (", ".join(sorted({q.get("name") for q in facs if q.get("id") not in alias})) or "?", cl[0]["pat"].get("name"), tast.render(cl[0]["init"])[:40]))
     if probs:
         rep.violation("R-BDF-MATRIX", key, "; ".join(probs), blk.get("sp"))
     else:
